@@ -51,17 +51,29 @@ def parse_enums(src):
         name = m.group(1)
         end = match_brace(src, m.end() - 1)
         body = src[m.end():end]
-        arms = re.findall(name + r"::(\w+)\s*=>\s*(-?\d+)", body)
+        arms = re.findall(r"(?:Self|" + name + r")::(\w+)\s*=>\s*(-?\d+)", body)
         if name in enums:
             enums[name]["to"] = {v: int(o) for v, o in arms}
     for m in re.finditer(r"impl TryFrom<VarInt> for (\w+)\s*\{", src):
         name = m.group(1)
         end = match_brace(src, m.end() - 1)
         body = src[m.end():end]
-        arms = re.findall(r"(-?\d+)\s*=>\s*Ok\(\s*" + name + r"::(\w+)\s*\)", body)
+        # arm forms understood: `N => Ok(E::V)`, `N => E::V`, `x if x == N => [Ok(]E::V`, `if value == N { .. E::V .. }`
+        arms = re.findall(r"(?<![\w.])(-?\d+)\s*=>\s*(?:Ok\(\s*)?(?:Self|" + name + r")::(\w+)", body)
+        arms += re.findall(r"\w+\s+if\s+\w+\s*==\s*(-?\d+)\s*=>\s*(?:Ok\(\s*)?(?:Self|" + name + r")::(\w+)", body)
+        arms += re.findall(r"if\s+\w+\s*==\s*(-?\d+)\s*\{[^{}]*?(?:Self|" + name + r")::(\w+)", body)
         if name in enums:
-            enums[name]["from"] = [(int(o), v) for o, v in arms]
-    return {k: v for k, v in enums.items() if v["to"] is not None and v["from"] is not None}
+            enums[name]["from"] = list(dict.fromkeys((int(o), v) for o, v in arms))
+    enums = {k: v for k, v in enums.items() if v["to"] is not None and v["from"] is not None}
+    # an impl written in a form that is not understood gives tables that do not cover the variants: the enum is then
+    # "unparsed" (empty tables; every packet using it is unparsed too and the models fall back to the protocol table)
+    for name, e in enums.items():
+        vs = set(e["variants"])
+        e["ok"] = (set(e["to"].keys()) == vs and {v for _, v in e["from"]} == vs and len(e["from"]) == len(vs)
+                   and len({o for o, _ in e["from"]}) == len(vs))
+        if not e["ok"]:
+            sys.stderr.write("translate_packets: enum %s: conversion impls not understood\n" % name)
+    return enums
 
 # ---------------------------------------------------------------- packets
 WRITE_KINDS = {
@@ -120,6 +132,8 @@ def parse_write(body, fields, enums, aliases):
             for pre in ("*", "&"):
                 if a.startswith(pre): a = a[1:].strip(); changed = True
             if a.startswith("(") and a.endswith(")") and a.count("(") == 1: a = a[1:-1].strip(); changed = True
+            for suf in (".as_str()", ".as_slice()", ".as_ref()", ".clone()"):
+                if a.endswith(suf): a = a[:-len(suf)].strip(); changed = True
         if a in locals_: return "self." + locals_[a]
         return a
     while i < len(stmts):
@@ -173,6 +187,7 @@ def parse_write(body, fields, enums, aliases):
             if ma and k == "varint":
                 f = ma.group(1); t = ftypes.get(f)
                 if t not in enums: raise Unparsed("into() on non-enum field %s: %s" % (f, t))
+                if not enums[t].get("ok", True): raise Unparsed("enum %s: conversion impls not understood" % t)
                 ops.append((f, "KEnum %s_tbl" % t)); i += 1; continue
             ma = re.fullmatch(r"self\.(\w+)\.0", arg)
             if ma:
@@ -265,6 +280,7 @@ def parse_read(body, fields, enums, aliases):
         if t is None: raise Unparsed("unknown field " + f)
         if kind == "ENUM":
             if t not in enums: raise Unparsed("try_into on non-enum field %s: %s" % (f, t))
+            if not enums[t].get("ok", True): raise Unparsed("enum %s: conversion impls not understood" % t)
             kind = "KEnum %s_tbl" % t
         elif kind == "BYTESN":
             if t not in aliases: raise Unparsed("array field %s: %s" % (f, t))
@@ -343,6 +359,7 @@ def gen_packets():
         for o, v in e["from"]:
             if v not in e["variants"]: ok = False; break
             frm.append((o, e["variants"].index(v)))
+        if not e.get("ok", True): ok = False
         if not ok:
             sys.stderr.write("translate_packets: enum %s tables incomplete\n" % name)
             tos, frm = [], []
